@@ -10,7 +10,7 @@ func init() {
 			"quick":    "0..2 assertions; per assertion/response one optional element absent at a time; all strings (SMT String) and instants (64-bit ns) symbolic; one SP-clock reading per Now() call",
 			"thorough": "0..3 assertions; full cross product of absent optional elements",
 		},
-		Outside: []string{"that encoding/xml populates the struct from the document (C08)", "instants outside the int64-nanosecond range (years 1678..2262)"},
+		Outside: []string{"that encoding/xml populates the struct from the document (C08)", "order between two timestamps that both lie outside the int64-nanosecond range (years 1678..2262); such timestamps are compared with the clock through saturated instants"},
 	})
 	reg(&PropSpec{ID: "C05",
 		Harnesses: []HarnessSpec{
@@ -18,7 +18,7 @@ func init() {
 			{Name: "VH_C05_expiry", Replay: "native"},
 		},
 		Bounds:  map[string]string{"quick": "Conditions present/absent, both bounds arbitrary strings; 1..3 assertions for the hard expiry; instants 64-bit ns", "thorough": "same"},
-		Outside: []string{"the RFC 3339 parser itself (time.Parse) is represented by uninterpreted functions ok(s), P(s) of the attribute string", "instants outside the int64-nanosecond range"},
+		Outside: []string{"the RFC 3339 parser itself (time.Parse) is represented by uninterpreted functions ok(s), P(s), z(s), far(s) of the attribute string", "order between two timestamps that both lie outside the int64-nanosecond range"},
 	})
 	reg(&PropSpec{ID: "C06",
 		Harnesses: []HarnessSpec{
@@ -38,7 +38,7 @@ func init() {
 		Harnesses: []HarnessSpec{
 			{Name: "VH_C12_maybeDeflate", Replay: "native"},
 		},
-		Bounds:  map[string]string{"quick": "limit any int64 >= 0; inflated size 0..64 MiB; decoder an arbitrary predicate of the bytes", "thorough": "same"},
+		Bounds:  map[string]string{"quick": "limit any int64 >= 0; inflated size 0..64 MiB; compressed length arbitrary; decoder an arbitrary predicate of the bytes; optionally another message (any outcome) handled just before in the same process", "thorough": "same"},
 		Outside: []string{"allocator behaviour: the claim is on bytes requested from the inflater", "negative MaximumDecompressedBodySize (not a size)"},
 	})
 	reg(&PropSpec{ID: "C18",
@@ -46,7 +46,7 @@ func init() {
 			{Name: "VH_C18_string", Replay: "native", Unwind: 400, MaxPaths: 400000},
 			{Name: "VH_C18_uuid", Replay: "native", Unwind: 400000, StepCap: 400_000_000},
 		},
-		Bounds:  map[string]string{"quick": "300 consecutive NewV4 calls in one process; every byte of the crypto/rand stream symbolic; short reads of rand.Reader allowed by the io.Reader contract", "thorough": "same"},
+		Bounds:  map[string]string{"quick": "300 consecutive NewV4 calls in one process; every byte of the crypto/rand stream symbolic; short reads of rand.Reader allowed by the io.Reader contract; String() for every 16-byte pattern; two messages built before the first is serialised", "thorough": "same"},
 		Outside: []string{"'never repeats / unpredictable' is a probabilistic statement about the OS generator: reduced to source identity (every free bit is a distinct crypto/rand stream bit) and injectivity of the rendering", "goroutine interleavings of NewV4 (C17)"},
 	})
 	reg(&PropSpec{ID: "C19",
@@ -131,7 +131,7 @@ func init() {
 			{Name: "VH_C13_sign_is_pure", Replay: "native", Unwind: 2000},
 			{Name: "VH_C16_auth_body_post", Replay: "native", Unwind: 2000},
 		},
-		Bounds:  map[string]string{"quick": "2 goroutines x one SigningContext() call each on a fresh SP (all slow/fast variant assignments and read-from choices); isolation: two consecutive Metadata / validation / signing / POST-form calls with the first result scribbled over", "thorough": "3 goroutines"},
+		Bounds:  map[string]string{"quick": "2 goroutines x one SigningContext() call each on a fresh SP (all slow/fast variant assignments and read-from choices); isolation: two consecutive Metadata / validation / signing / POST-form / URL calls with the first result scribbled over or the first document kept; pooled memory: one validation of a compressed message, reads through views of buffers already handed back to a sync.Pool counted (replay: 4 goroutines x 60 rounds under the race detector)", "thorough": "3 goroutines"},
 		Outside: []string{"thread-safety inside goxmldsig / clockwork / crypto; longer call histories per goroutine; the cert-byte accessors return views of configured slices by design"},
 	})
 	reg(&PropSpec{ID: "C20",
@@ -139,7 +139,7 @@ func init() {
 			{Name: "VH_C20_predecode", Replay: "native", Unwind: 400},
 			{Name: "VH_C20_predecode_logout", Replay: "native", Unwind: 400},
 		},
-		Bounds:  map[string]string{"quick": "Response / LogoutResponse root with signature none/valid/invalid (incl. nested position), optional assertion; raw, DEFLATE, non-UTF-8 declared encoding, unpadded base64; configured decompression limit 0..128 MiB, inflated size 64 KiB..64 MiB", "thorough": "same"},
+		Bounds:  map[string]string{"quick": "Response / LogoutResponse root with signature none/valid/invalid (incl. nested position), optional assertion, optional Issuer / InResponseTo, optional foreign-namespace Issuer child, Issuer with a non-ASCII character; raw (leading white space / byte order mark), DEFLATE (incl. DEFLATE/XML polyglot streams), non-UTF-8 declared encoding, unpadded base64; configured decompression limit 0..128 MiB, inflated size 64 KiB..64 MiB", "thorough": "same"},
 		Outside: []string{"byte-level agreement of the two XML parsers on arbitrary layouts (duplicate / prefixed attributes reordered by canonicalisation, repeated Issuer elements)"},
 	})
 	reg(&PropSpec{ID: "C16",
@@ -149,7 +149,7 @@ func init() {
 			{Name: "VH_C16_logout_response_post", Replay: "native", Unwind: 400},
 			{Name: "VH_C16_auth_body_post", Replay: "native", Unwind: 2000},
 		},
-		Bounds:  map[string]string{"quick": "arbitrary relay state / endpoint / document strings; relay present or empty; signing on/off; two consecutive renderings", "thorough": "same"},
+		Bounds:  map[string]string{"quick": "arbitrary relay state / endpoint / document strings (documents with or without their own Destination / Signature child); relay present or empty; signing on/off; two or three consecutive renderings (other document, same document again)", "thorough": "same"},
 		Outside: []string{"correctness of html/template's contextual escaper (its documented contract is the model): values are checked to be bound through an escaping action inside a double-quoted attribute of the constant template"},
 	})
 	reg(&PropSpec{ID: "C14",
@@ -157,7 +157,7 @@ func init() {
 			{Name: "VH_C14_auth_url", Replay: "native", Unwind: 400},
 			{Name: "VH_C14_logout_url", Replay: "native", Unwind: 400},
 		},
-		Bounds:  map[string]string{"quick": "IdP endpoint with 0..1 pre-existing query parameter; relay state any string over [A-Za-z0-9._~-] plus space & = + %; signing on/off; POST vs redirect flavour; document an arbitrary tree", "thorough": "same"},
+		Bounds:  map[string]string{"quick": "IdP endpoint with 0..1 pre-existing query parameter; relay state any string over [A-Za-z0-9._~-] plus space & = + %; signing on/off; POST vs redirect flavour; document an arbitrary tree (with or without Destination / enveloped Signature child); optionally another URL built by the same SP just before; all 16 key configurations for the signing key", "thorough": "same"},
 		Outside: []string{"DEFLATE and base64 encoders themselves (inverse-pair contracts)", "relay states outside the stated alphabet (QueryEscape is defined by replacement only on it)", "AuthRedirect (net/http)"},
 	})
 	genuine := []HarnessSpec{
@@ -170,7 +170,7 @@ func init() {
 	}
 	reg(&PropSpec{ID: "C08", Harnesses: append(append(append([]HarnessSpec{{Name: "VH_C08_values", Replay: "native", Panics: true}}, genuine...), retrieve...), ssoNoDeep...),
 		Bounds:  map[string]string{"quick": "RetrieveAssertionInfo / ValidateEncodedResponse over the SSO scenario space (0..2 children), one attribute with one value per assertion; accessor helpers on the resulting map with symbolic names", "thorough": "0..3 children"},
-		Outside: []string{"invariance under serialisation (comments, CDATA, character references, white space, canonicalisation variants, digest / signature algorithm support) is etree / encoding/xml / goxmldsig behaviour and is NOT decided here: the claim covers the repo-owned decoding, extraction and accessor logic over the decoded tree only"}})
+		Outside: []string{"invariance under serialisation beyond the modelled layouts (comment-split text, CDATA sections, inherited namespace prefixes, leading white space / byte order mark, raw / DEFLATE, encrypted or not): character references, attribute order, canonicalisation variants, digest / signature algorithm support are etree / encoding/xml / goxmldsig behaviour and are NOT decided here", "an empty CDATA section (rejected by xml-roundtrip-validator v0.1.0, a dependency quirk)"}})
 	for _, id := range []string{"C01", "C03", "C04", "C05", "C06", "C09"} {
 		props[id].Harnesses = append(props[id].Harnesses, retrieve...)
 	}
